@@ -355,18 +355,18 @@ func (h *recHandler) add(x ...any) {
 		panic("handler boom")
 	}
 }
-func (h *recHandler) Null()            { h.add("null") }
-func (h *recHandler) Bool(b bool)      { h.add("bool", b) }
-func (h *recHandler) Int(i int64)      { h.add("int", i) }
-func (h *recHandler) Float(f float64)  { h.add("float", f) }
-func (h *recHandler) Number(s string)  { h.add("number", s) }
-func (h *recHandler) String(s string)  { h.add("string", s) }
-func (h *recHandler) ObjectStart()     { h.add("{") }
-func (h *recHandler) ObjectEnd()       { h.add("}") }
-func (h *recHandler) Key(s string)     { h.add("key", s) }
-func (h *recHandler) ArrayStart()      { h.add("[") }
-func (h *recHandler) ArrayEnd()        { h.add("]") }
-func (h *recHandler) view() any        { return map[string]any{"t": "events", "ev": absval.Atoms(h.ev)} }
+func (h *recHandler) Null()                { h.add("null") }
+func (h *recHandler) Bool(b bool)          { h.add("bool", b) }
+func (h *recHandler) Int(i int64)          { h.add("int", i) }
+func (h *recHandler) Float(f float64)      { h.add("float", f) }
+func (h *recHandler) Number(s string)      { h.add("number", s) }
+func (h *recHandler) String(s string)      { h.add("string", s) }
+func (h *recHandler) ObjectStart()         { h.add("{") }
+func (h *recHandler) ObjectEnd()           { h.add("}") }
+func (h *recHandler) Key(s string)         { h.add("key", s) }
+func (h *recHandler) ArrayStart()          { h.add("[") }
+func (h *recHandler) ArrayEnd()            { h.add("]") }
+func (h *recHandler) view() any            { return map[string]any{"t": "events", "ev": absval.Atoms(h.ev)} }
 func (h *recHandler) snapshot() func() any { return func() any { return h.view() } }
 
 type tokOps struct {
@@ -530,6 +530,7 @@ func (wo *wrOps) menu() []Kind {
 		str("color", withOpt(ojg.BrightOptions, func(o *ojg.Options) { o.Sort = true }), wSort),
 		must("must_buf", def, wData),
 		must("must_buf_big", withOpt(def, func(o *ojg.Options) { o.InitSize = 16 }), wLong),
+		str("long_small_limit", withOpt(def, func(o *ojg.Options) { o.WriteLimit = 8 }), wLong), // a leftover io.Writer would be flushed into
 		wr("write_ok_small_limit", withOpt(def, func(o *ojg.Options) { o.WriteLimit = 8 }), wLong, 1000),
 		wr("write_fail", def, wData, 0),
 		wr("write_fail_mid", withOpt(def, func(o *ojg.Options) { o.WriteLimit = 8 }), wLong, 1),
